@@ -459,6 +459,24 @@ func moduleBlock() *schema.BlockSchema {
 							Path:        childLP,
 							Constraints: schema.Constraints{ScopeId: "variable", Type: cty.String},
 						}},
+					// object keys as path origins (the form variable definition files take)
+					"inputs": {IsOptional: true, Description: md("child-inputs-desc"), Constraint: schema.Object{
+						Name: "module inputs",
+						Attributes: schema.ObjectAttributes{
+							"name": {IsOptional: true, Constraint: schema.AnyExpression{OfType: cty.String}, Description: md("inputs-name-desc"),
+								OriginForTarget: &schema.PathTarget{
+									Address:     schema.Address{schema.StaticStep{Name: "var"}, schema.AttrNameStep{}},
+									Path:        childLP,
+									Constraints: schema.Constraints{ScopeId: "variable", Type: cty.String},
+								}},
+							"size": {IsOptional: true, Constraint: schema.AnyExpression{OfType: cty.Number}, Description: md("inputs-size-desc"),
+								OriginForTarget: &schema.PathTarget{
+									Address:     schema.Address{schema.StaticStep{Name: "var"}, schema.AttrNameStep{}},
+									Path:        childLP,
+									Constraints: schema.Constraints{ScopeId: "variable", Type: cty.Number},
+								}},
+						},
+					}},
 					"region": {IsOptional: true, Description: md("child-region-input-desc"), Constraint: schema.AnyExpression{OfType: cty.String},
 						OriginForTarget: &schema.PathTarget{
 							Address:     schema.Address{schema.StaticStep{Name: "exports"}, schema.AttrNameStep{}},
